@@ -834,6 +834,19 @@ Lemma drop_rx_writes : writes_store (lift_u (fun e st => chan_drop_rx e (endpoin
 Proof.
   exists ex2, [OChan (chan_new None); OCell [1; 1; 1; 1]%N []]. do 3 eexists. split; [vm_compute; reflexivity|]. discriminate.
 Qed.
+(* KNOWN FINDING F5d: the arrival at a barrier that is not preceded by a Switch (the caller will block) writes the barrier's
+   waiter set, and the waiter set decides which later arrival completes the group and is the leader: with a waiter already
+   registered the same arrival completes the group (result blocked = 0), without it the caller blocks (result blocked = 1).
+   So a blocking arrival does not commute with the other arrivals, and the omitted scheduling point loses outcomes that
+   differ in is_leader(). *)
+Lemma barrier_blocking_arrival_writes : writes_store (barrier_arrive_block 0).
+Proof.
+  exists ex2, [OBarrier 2 0 [] [] []]. do 3 eexists. split; [vm_compute; reflexivity|]. discriminate.
+Qed.
+Lemma barrier_arrival_order_observable :
+  (exists e' s' ep, barrier_arrive_block 0 ex2 [OBarrier 2 0 [] [] []] = Some (e', s', [ep; 1%N]))
+  /\ (exists e' s' ep, barrier_arrive_block 0 ex2 [OBarrier 2 0 [1] [] []] = Some (e', s', [ep; 0%N])).
+Proof. split; do 3 eexists; vm_compute; reflexivity. Qed.
 (* dropping the last sender wakes a blocked receiver: another task's state changes too *)
 Lemma drop_tx_writes_other_task : writes_other_task (lift_u (fun e st => chan_drop_tx e (endpoint_kill st 0 0) 0)).
 Proof.
